@@ -17,12 +17,13 @@ import vlib
 from vlib import prints, write_ndjson, read_ndjson, MachineryError
 from props import schema_corpus
 
-GAP_IDS = ("F9a", "F9b", "F9c", "F9d", "F9e")   # F9f (inline merge) has no pre-repair shape in the spec
+GAP_IDS = ("F9a", "F9b", "F9c", "F9d", "F9e", "F9g")   # F9f (inline merge) has no pre-repair shape in the spec
 
 CFG = """SPECIFICATION Spec
 CONSTANTS
   MaxDev = %d
   NamesSet = %s
+  SchemaSet = %s
   CoreOnly = %s
   Gaps = %s
 INVARIANTS %s
@@ -33,6 +34,7 @@ TRACE_CFG = """SPECIFICATION TraceSpec
 CONSTANTS
   MaxDev = 0
   NamesSet = {"utf8", "legacy"}
+  SchemaSet = {"prometheus", "thanos"}
   CoreOnly = FALSE
   Gaps = %s
 CHECK_DEADLOCK FALSE
@@ -64,6 +66,7 @@ BASE_G = {"name": "ok", "interval": "ok", "query_offset": "ok", "limit": "ok", "
 def devs_of(c):
     """Number of deviating fields of a generated case (only used to stratify the replay sample; signatures come from TLC)."""
     out = [k for k in ("top",) if c[k] != "ok"] + [k for k in ("gitem", "ritem") if c[k] != "map"]
+    out += [k for k in ("g2", "r2") if c.get(k, "absent") != "absent"]
     out += ["g." + f for f, v in c["g"].items() if v != BASE_G[f]]
     out += ["r." + f for f, v in c["r"].items() if v != base_r(c["kind"])[f]]
     return out
@@ -79,7 +82,7 @@ def features(text):
 
 
 def sig_of(v):
-    return "C01:%s:%s:%s" % (v["kind"], v["names"], ",".join(sorted(v["devs"])))
+    return "C01:%s:%s:%s" % (v["kind"], v["names"], ",".join(sorted(v["devs"])))   # violations exist for the prometheus schema only
 
 
 def norm_prom_err(e):
@@ -148,25 +151,32 @@ def run(ctx, replay_case=None):
     # quick:    MC all documents with <= 2 deviating fields (utf-8 names) and <= 1 (legacy names);
     #           replay every document with <= 1 deviation and a seeded sample of 12000 pairs
     # thorough: MC <= 3 deviations (3rd in a core field, utf-8 names) and all pairs under both name schemes; replay all pairs
+    PROM, BOTH = tla_set(["prometheus"]), tla_set(["prometheus", "thanos"])
     if thorough:
         mc = ctx.tlc("StrictSchema", "c01_mc.cfg", timeout=3300, allow_violation=True, tag="mc-dev3-core",
-                     files={"c01_mc.cfg": CFG % (3, tla_set(["utf8"]), "TRUE", tla_set(gaps), "Inv_C01_ModuloKnown Inv_Count")})
+                     files={"c01_mc.cfg": CFG % (3, tla_set(["utf8"]), PROM, "TRUE", tla_set(gaps), "Inv_C01_ModuloKnown Inv_Count")})
         mc2 = ctx.tlc("StrictSchema", "c01_mc2.cfg", timeout=3300, allow_violation=True, tag="mc-dev2+gen",
-                      files={"c01_mc2.cfg": CFG % (2, tla_set(names_all), "FALSE", tla_set(gaps), "Inv_C01_ModuloKnown Inv_Count EmitCase")})
-        mcs, gen = [mc, mc2], mc2
+                      files={"c01_mc2.cfg": CFG % (2, tla_set(names_all), PROM, "FALSE", tla_set(gaps), "Inv_C01_ModuloKnown Inv_Count EmitCase")})
+        mc3 = ctx.tlc("StrictSchema", "c01_mc3.cfg", timeout=3300, allow_violation=True, tag="mc-dev2-thanos-core+gen",
+                      files={"c01_mc3.cfg": CFG % (2, tla_set(["utf8"]), tla_set(["thanos"]), "TRUE", tla_set(gaps), "Inv_C01_ModuloKnown Inv_Count EmitCase")})
+        mcs, gens = [mc, mc2, mc3], [mc2, mc3]
     else:
         mc = ctx.tlc("StrictSchema", "c01_mc.cfg", timeout=900, allow_violation=True, tag="mc-dev2-utf8+gen",
-                     files={"c01_mc.cfg": CFG % (2, tla_set(["utf8"]), "FALSE", tla_set(gaps), "Inv_C01_ModuloKnown Inv_Count EmitCase")})
-        mc2 = ctx.tlc("StrictSchema", "c01_mc2.cfg", timeout=900, allow_violation=True, tag="mc-dev1-legacy+gen",
-                      files={"c01_mc2.cfg": CFG % (1, tla_set(["legacy"]), "FALSE", tla_set(gaps), "Inv_C01_ModuloKnown Inv_Count EmitCase")})
-        mcs, gen = [mc, mc2], None
+                     files={"c01_mc.cfg": CFG % (2, tla_set(["utf8"]), PROM, "FALSE", tla_set(gaps), "Inv_C01_ModuloKnown Inv_Count EmitCase")})
+        mc2 = ctx.tlc("StrictSchema", "c01_mc2.cfg", timeout=900, allow_violation=True, tag="mc-dev1-all-schemes+gen",
+                      files={"c01_mc2.cfg": CFG % (1, tla_set(names_all), BOTH, "FALSE", tla_set(gaps), "Inv_C01_ModuloKnown Inv_Count EmitCase")})
+        mcs, gens = [mc, mc2], [mc, mc2]
     leads = [m["invariant_violated"] for m in mcs if m["invariant_violated"]]
-    cases = []
-    for g in ([gen] if gen is not None else mcs):
+    cases, seen_case = [], set()
+    for g in gens:
         got = [v[0] for v in prints(g, "CASE")]
         if len(got) != g["distinct"]:
             raise MachineryError("GEN emitted %d cases for %d states" % (len(got), g["distinct"]))
-        cases += got
+        for x in got:
+            k = json.dumps(x, sort_keys=True)
+            if k not in seen_case:
+                seen_case.add(k)
+                cases.append(x)
     cases.sort(key=lambda c: json.dumps(c, sort_keys=True))
     visited = len(cases)
     if not thorough:
